@@ -2,6 +2,7 @@ package main
 
 import (
 	"fmt"
+	"runtime"
 	"strconv"
 	"strings"
 	"sync"
@@ -104,8 +105,14 @@ func runConnCase(c connCase) string {
 		runs[i] = &connRun{pc: newPipeConn(l), log: l, done: make(chan string, 1)}
 		d.logs.Store(runs[i].pc, l)
 	}
-	if c.trace && c.conns == 1 {
-		srv.SetTracer(&dTracer{logOf: func() *evlog { return runs[0].log }})
+	var goLogs sync.Map // goroutine id -> *evlog: the tracer API carries no connection, spans are attributed by goroutine
+	if c.trace {
+		srv.SetTracer(&dTracer{logOf: func() *evlog {
+			if v, ok := goLogs.Load(goid()); ok {
+				return v.(*evlog)
+			}
+			return &evlog{}
+		}})
 	}
 	for _, name := range c.app {
 		nm := name
@@ -130,6 +137,7 @@ func runConnCase(c connCase) string {
 		r := runs[i]
 		go func() {
 			res := "ret"
+			goLogs.Store(goid(), r.log)
 			defer func() {
 				if p := recover(); p != nil {
 					msg := strings.ReplaceAll(fmt.Sprint(p), " ", "_")
@@ -275,4 +283,16 @@ func modeConn(args []string) {
 		fmt.Fprintf(out, "%d %s\n", idx, runConnCase(parseCase(line)))
 		idx++
 	})
+}
+
+// goid returns the current goroutine's id (parsed from the stack header; test harness only).
+func goid() uint64 {
+	var buf [64]byte
+	n := runtime.Stack(buf[:], false)
+	f := strings.Fields(string(buf[:n]))
+	if len(f) < 2 {
+		return 0
+	}
+	id, _ := strconv.ParseUint(f[1], 10, 64)
+	return id
 }
